@@ -200,6 +200,23 @@ pub fn cases(tier: Tier, seed: u64) -> Vec<Case> {
         out.push(gradient_case("dense-chain", Shape::Single(2), chain.clone(), conns));
     }
     out.push(gradient_case("conv-dense-dense", Shape::Triple(1, 2, 2), mixed.clone(), vec![(0, 1)]));
+    // source at a >= 1 with a different representation of the same element count than the target:
+    // spatial 1x2x2 -> spatial 4x1x1, flat 4 -> spatial 1x2x2, spatial 1x2x2 -> flat 4
+    let c1 = |f: usize, k: usize, p: usize| L::Conv(f, (k, k), (1, 1), (p, p), (1, 1), Linear);
+    let reps: Vec<(&'static str, Shape, Vec<L>, (usize, usize))> = vec![
+        ("conv-conv4-conv/1x2x2-into-4x1x1", Shape::Triple(1, 2, 2), vec![c1(1, 1, 0), c1(4, 2, 0), c1(2, 1, 0)], (1, 2)),
+        ("dense-dense-conv/flat4-into-1x2x2", Shape::Single(2), vec![L::Dense(4, Linear, false), L::Dense(4, Tanh, true), c1(1, 2, 0)], (1, 2)),
+        ("conv-conv-dense-dense/1x2x2-into-flat4", Shape::Triple(1, 2, 2), vec![c1(1, 1, 0), c1(1, 3, 1), L::Dense(2, Linear, false)], (1, 2)),
+        ("conv-deconv-conv/2x1x2-into-1x2x2", Shape::Triple(1, 2, 2), vec![L::Conv(2, (2, 1), (1, 1), (0, 0), (1, 1), Linear), L::Deconv(1, (2, 1), (1, 1), (0, 0), Linear), c1(1, 2, 0)], (1, 2)),
+    ];
+    for (name, input, layers, conn) in reps.into_iter() {
+        for acc in Acc::all() {
+            if full || acc == Acc::Add || acc == Acc::Subtract {
+                out.push(forward_case(name, input.clone(), layers.clone(), vec![conn], acc));
+            }
+        }
+        out.push(gradient_case(name, input.clone(), layers.clone(), vec![conn]));
+    }
     out.push(control_case());
     out
 }
